@@ -66,10 +66,9 @@ theorem dt_within_bounds_or_schedule (p : Params) (A : Admissible p) (os : List 
   rw [h] at this
   have I : Inv p (run p os).tm (run p os).accepted := this
   refine ⟨I.dt_pos, I.dt_max, ?_⟩
-  rcases I.dt_min with h1 | h1
+  rcases I.dt_min with h1 | ⟨x, hx, he⟩
   · exact Or.inl h1
-  · obtain ⟨x, hx, _, heq⟩ := I.next
-    right; rw [heq h1]; exact sched_mem hx
+  · right; rw [he]; exact sched_mem hx
 
 /-- … and that step is what a converged outcome accepts (any parameters, any running state). -/
 theorem converged_step_is_accepted (p : Params) (r : Run) (it : Int) (h : r.status = .running) :
@@ -241,6 +240,43 @@ theorem time_index_counts_accepted (p : Params) (A : Admissible p) (os : List Ou
   rw [h] at this
   exact Inv.ti this
 
+/-- With zero tolerances "hit" is exact: when the loop has ended every scheduled time IS an accepted time
+    (the mechanism does not rely on the tolerance; steps are cut to land exactly). -/
+theorem hits_exactly_with_zero_tolerance (p : Params) (A : Admissible p) (hr : p.rtol = 0) (ha : p.atol = 0)
+    (os : List Outcome) (h : (run p os).status = .finished) : ∀ y ∈ p.schedule, y ∈ (run p os).accepted := by
+  intro y hy
+  obtain ⟨a, hmem, hc⟩ := hits_every_scheduled p A os h y hy
+  rw [isclose_iff, hr, ha] at hc
+  have : a = y := by
+    rcases hc with hc | hc
+    · have h0 := absR_nonneg (a - y)
+      have : absR (a - y) = 0 := by grind
+      unfold absR at this; split at this <;> grind
+    · exact hc
+  rw [← this]; exact hmem
+
+/-- Restart (`load_data_from_vtu/pvd` → `set_time_and_dt_from_exported_steps`, REPAIRED method, see
+    `restore` in Model.lean): a fresh manager whose clock and step are restored from the exported state of
+    a running loop — with the schedule cursor synchronised — continues as a run with the same guarantees,
+    for every continuation tape.  Hypothesis `hnc` (decidable): the restored clock is not already within
+    tolerance of the pending scheduled time.  The code as it is violates this theorem (finding
+    `restart-stale-schedule-cursor`: the cursor stays at 1 and the next correction makes dt negative). -/
+theorem restart_keeps_property (p : Params) (A : Admissible p) (os : List Outcome)
+    (h : (run p os).status = .running)
+    (hnc : ∀ x, p.schedule[pending (run p os).tm]? = some x →
+      isclose p.rtol p.atol (run p os).tm.time x = false)
+    (os' : List Outcome) :
+    (runFrom p (restarted p (run p os)) os').accepted.Pairwise (· > ·) ∧
+    (∀ a ∈ (runFrom p (restarted p (run p os)) os').accepted, a ≤ p.timeFinal) ∧
+    ((runFrom p (restarted p (run p os)) os').status = .finished →
+      ∀ y ∈ p.schedule, HitBy p (runFrom p (restarted p (run p os)) os').accepted y) := by
+  have F := facts_of_admissible A
+  have hg := good_runFrom F os' _ (good_restarted F (good_run F os) h hnc)
+  refine ⟨hg.1, hg.2.1, ?_⟩
+  intro hf
+  have := hg.2.2
+  rw [hf] at this; exact this
+
 /-! ### constant time step (`constant_dt=True`): outside the property statement, kept for completeness -/
 
 /-- With a constant step the step never changes and the accepted times are `t₀ + k·dt_init`
@@ -338,6 +374,14 @@ example : (run { pF2 with dtMin := 1/4 } [.converged 5, .converged 5]).tm.dt = 1
 example : Admissible { pF2 with rtol := -1/1000, atol := -1 } ∧
     (run { pF2 with rtol := -1/1000, atol := -1 } (List.replicate 4 (.converged 5))).accepted = [6/5, 1, 1/2, 0] ∧
     (run { pF2 with rtol := -1/1000, atol := -1 } (List.replicate 4 (.converged 5))).status = .finished := by
+  decide +kernel
+
+/-- restart after two steps of the F2 history (clock 1, dt 1/5): the synchronised cursor is 2 and the
+    continuation ends on 6/5 -/
+example : (restarted pF2 (run pF2 [.converged 5, .converged 5])).tm.idx = 2 ∧
+    (runFrom pF2 (restarted pF2 (run pF2 [.converged 5, .converged 5])) [.converged 5, .converged 5]).accepted
+      = [6/5, 1, 1/2, 0] ∧
+    (runFrom pF2 (restarted pF2 (run pF2 [.converged 5, .converged 5])) [.converged 5, .converged 5]).status = .finished := by
   decide +kernel
 
 /-- liveness premise is satisfiable: dt_min = 1/4, seven converged steps suffice for [0, 1, 6/5] -/
